@@ -82,28 +82,46 @@ type op struct {
 	run  func(w *world, s int) string // returns a failure description or ""
 }
 
-// transportCycle follows the chain of wrapped transports from instance s: a SimpleHTTP that is
-// (transitively) its own underlying transport would recurse until the stack overflows, which kills the
-// process; it is therefore detected structurally and the request is not issued.
-func (w *world) transportCycle(s int) bool {
+// chain follows the wrapped transports from the client of instance s: the SimpleHTTP instances a request
+// made through s passes, outermost first. A SimpleHTTP that is (transitively) its own underlying
+// transport would recurse until the stack overflows, which kills the process; that is detected here,
+// structurally, and the request is not issued.
+func (w *world) chain(s int) (idx []int, cycle bool) {
 	seen := map[*network.SimpleHTTPDef]bool{}
-	cur := w.https[s]
-	for cur != nil {
+	var t http.RoundTripper = w.https[s].GetHTTPClient().Transport
+	for {
+		cur, ok := t.(*network.SimpleHTTPDef)
+		if !ok || cur == nil {
+			return idx, false
+		}
 		if seen[cur] {
-			return true
+			return idx, true
 		}
 		seen[cur] = true
-		v := lib.Priv(cur, "clientTransport")
-		next, _ := v.Interface().(*network.SimpleHTTPDef)
-		cur = next
+		for i, h := range w.https {
+			if h == cur {
+				idx = append(idx, i)
+			}
+		}
+		next, _ := lib.Priv(cur, "clientTransport").Interface().(http.RoundTripper)
+		t = next
 	}
-	return false
 }
 
 func (w *world) request(s int, verb string) string {
 	w.log, w.calls, w.lastHdr = nil, 0, nil
-	if w.transportCycle(s) {
+	ch, cycle := w.chain(s)
+	if cycle {
 		return "the interceptor chain recursed: the SimpleHTTP has become its own underlying transport (a request would recurse until the stack overflows)"
+	}
+	inChain := false
+	for _, i := range ch {
+		if i == s {
+			inChain = true
+		}
+	}
+	if !inChain {
+		return fmt.Sprintf("a request made through instance %d does not pass instance %d at all (its client's transport chain is %v): its interceptors cannot run", s, s, ch)
 	}
 	var err error
 	h := w.https[s]
@@ -129,12 +147,19 @@ func (w *world) request(s int, verb string) string {
 	if w.calls > 60 {
 		return fmt.Sprintf("the interceptor chain recursed / ran repeatedly (%d interceptor calls in one request)", w.calls)
 	}
+	// every SimpleHTTP the request passes contributes its registered interceptors once, in order (a client
+	// wrapped by two instances chains them: the inner one is the outer one's underlying transport)
 	var want []string
 	failed := ""
-	for _, n := range w.model[s] {
-		want = append(want, n)
-		if n == "i3F" {
-			failed = n
+	for _, i := range ch {
+		for _, n := range w.model[i] {
+			want = append(want, n)
+			if n == "i3F" {
+				failed = n
+				break
+			}
+		}
+		if failed != "" {
 			break
 		}
 	}
@@ -214,6 +239,10 @@ func ops() []op {
 		add("i1"), add("i2"), add("i3F"), add("i1", "i2"), rem("i1"), rem("i0"), rem("i3F"),
 		{"Clear", func(w *world, s int) string { w.https[s].ClearInterceptor(); w.model[s] = nil; return "" }},
 		setClient(0), setClient(1),
+		{"SetHTTPClient(the other instance's client)", func(w *world, s int) string {
+			w.https[s].SetHTTPClient(w.https[1-s].GetHTTPClient())
+			return ""
+		}},
 		{"SetHTTPClient(same client again)", func(w *world, s int) string { w.https[s].SetHTTPClient(w.https[s].GetHTTPClient()); return "" }},
 		{"SetHTTPClient(copy of the current client)", func(w *world, s int) string {
 			c := *w.https[s].GetHTTPClient() // e.g. to change the Timeout: its Transport already is this SimpleHTTP
@@ -295,7 +324,25 @@ func main() {
 						case strings.Contains(fail, "panic"):
 							clause = "panic"
 						}
-						r.Violation("C18|"+clause+"|after-"+all[np[len(np)-1].op].name, fmt.Sprintf("history %v: %s", progNames(all, np), fail),
+						// finding key: the clause plus the situation that matters (a client shared between the two
+						// instances, and whether a copy of it is involved), else the last operation
+						situation := "after-" + all[np[len(np)-1].op].name
+						shared, copied := false, false
+						for _, st := range np {
+							if strings.Contains(all[st.op].name, "other instance") {
+								shared = true
+							}
+							if strings.Contains(all[st.op].name, "copy of") {
+								copied = true
+							}
+						}
+						if shared {
+							situation = "client-shared-by-two-instances"
+							if copied {
+								situation += "+copied"
+							}
+						}
+						r.Violation("C18|"+clause+"|"+situation, fmt.Sprintf("history %v: %s", progNames(all, np), fail),
 							map[string]interface{}{"history": progNames(all, np), "failure": fail, "setup": "two SimpleHTTP instances s0, s1 built by NewSimpleHTTPWithClientAndInterceptors(client, common...) from one slice common=[i0] with capacity 4"})
 						continue
 					}
